@@ -381,6 +381,78 @@ def rule_enum_values(chk):
                 break
     chk.floor("C13.floor/enum-sets", len(sets), 10, "model enums", where(fn))
 
+
+def rule_enum_sequence(chk):
+    """parse_rootdefinition_enum read as a function of the enumerator list: explicit values are constant expressions (the
+    expression parser and the evaluator are stand-ins that hand over the constant and its type), enumerators without a
+    value continue from the previous one. An implicit enumerator is the previous value plus one computed in the previous
+    value's own type (a bool continues as int); the first one is int 0."""
+    import interp as I
+    f = chk.facts
+    fn = f.fn("parse_rootdefinition_enum", "rssl_typer")
+    if not fn:
+        return
+    ok = lambda v: I.Enum("Result", "Ok", {"0": v})
+    opt = lambda v: I.Enum("Option", "None") if v is None else I.Enum("Option", "Some", {"0": v})
+    loc = lambda v: I.Enum("Located", None, {"node": v, "location": I.Opaque("location")})
+    tid = lambda n: I.Enum("TypeId", None, {"0": n})
+    KIND_TY = {"Bool": 1, "IntLiteral": 2, "Int32": 3, "UInt32": 4}
+    LAYER = {v: I.Enum("TypeLayer", "Scalar", {"0": I.Enum("ScalarType", k)}) for k, v in KIND_TY.items()}
+
+    def deref(v):
+        return v.get() if isinstance(v, I.Ref) else v
+    lists = {
+        "implicit-only": [None, None, None], "after-int": [("Int32", 5), None, None], "after-literal": [("IntLiteral", 7), None, ("IntLiteral", 20), None],
+        "after-uint": [("UInt32", 1), None, None], "after-uint-high": [("UInt32", 0x7FFFFFFF), None], "after-uint-above-int": [("UInt32", 0x80000000), None],
+        "after-bool": [("Bool", True), None], "after-false": [("Bool", False), None, None], "after-negative": [("Int32", -3), None, None], "mixed": [None, ("UInt32", 10), None, ("Int32", 2), None],
+    }
+    for lname, spec in lists.items():
+        recorded = []
+        ext = {"begin_enum": lambda a: ok(I.Enum("EnumId", None, {"0": 0})), "end_enum": lambda a: ok(()),
+               "parse_expr": lambda a: ok((I.Enum("Expression", "Tagged", {"c": deref(a[0]).fields["c"]}), I.Enum("ExpressionType", None, {"0": tid(deref(a[0]).fields["ty"]), "1": I.Enum("ValueType", "Rvalue")}))),
+               "evaluate_constexpr": lambda a: ok(deref(a[0]).fields["c"]),
+               "TypeRegistry::remove_modifier": lambda a: a[1], "TypeRegistry::get_type_layer": lambda a: LAYER[deref(a[1]).fields["0"]],
+               "TypeRegistry::register_type": lambda a: tid(KIND_TY[deref(a[1]).fields["0"].variant]),
+               "register_enum_value": lambda a, rec=recorded: rec.append((deref(a[2]).fields["node"], deref(a[3]), deref(a[4]).fields["0"])) or ok(())}
+        values = []
+        for i, s_ in enumerate(spec):
+            ex = None if s_ is None else loc(I.Enum("AstExpression", None, {"c": I.Enum("Constant", s_[0], {"0": s_[1]}), "ty": KIND_TY[s_[0]]}))
+            values.append(I.Enum("EnumValue", None, {"name": loc("v%d" % i), "value": opt(ex)}))
+        sd = I.Enum("EnumDefinition", None, {"name": loc("E"), "values": values})
+        ctx = I.Enum("Context", None, {"module": I.Enum("Module", None, {"type_registry": I.Opaque("type registry"), "enum_registry": I.Opaque("enum registry")})})
+        key = "C13.enum-sequence/" + lname
+        try:
+            r = I.Interp(f, max_depth=6, extern=ext).apply(fn, [sd, ctx])
+        except I.Unknown as e:
+            if "panicking" in str(e):
+                chk.ob(key, False, "parse_rootdefinition_enum aborts on the enumerator list %s (%s)" % (spec, str(e)[:80]), where(fn))
+            else:
+                chk.unreadable(key, "parse_rootdefinition_enum on a model enumerator list", str(e)[:100], where(fn))
+            continue
+        want = []
+        prev = None
+        for s_ in spec:
+            if s_ is not None:
+                cur = (s_[0], int(s_[1]))
+            elif prev is None:
+                cur = ("Int32", 0)
+            else:
+                cur = ("Int32" if prev[0] == "Bool" else prev[0], prev[1] + 1)
+            want.append(cur)
+            prev = cur
+        got = [(c.variant, int(c.fields["0"])) for _n, c, _t in recorded]
+        tys = [t for _n, _c, t in recorded]
+        bad = None
+        if not (isinstance(r, I.Enum) and r.variant == "Ok"):
+            bad = "the enumerator list %s is refused" % (spec,)
+        elif got != want:
+            k = [i for i in range(min(len(got), len(want))) if got[i] != want[i]]
+            bad = "enumerator list %s: enumerator %d becomes %s(%d), the previous value plus one in the previous value's type is %s(%d)" % (
+                spec, k[0], got[k[0]][0], got[k[0]][1], want[k[0]][0], want[k[0]][1]) if k else "%d of %d enumerators are registered" % (len(got), len(want))
+        elif tys != [KIND_TY[k_] for k_, _v in want]:
+            bad = "enumerator list %s: the enumerators are registered with types %s, their constants have types %s" % (spec, tys, [KIND_TY[k_] for k_, _v in want])
+        chk.ob(key, bad is None, bad or "values %s" % (got,), where(fn), sample={"list": lname})
+
 def run(chk):
     f = chk.facts
     ev = chk.anchor("C13.anchor/evaluate_operator", f.fn("evaluate_operator", TY), "evaluate_operator")
@@ -400,6 +472,7 @@ def run(chk):
     rule_literal_fold(chk)
     rule_to_uint64(chk)
     rule_enum_values(chk)
+    rule_enum_sequence(chk)
 
 
 def outer_match(fn, adt):
